@@ -321,3 +321,57 @@ PROPS['C16'] = {
     'technique': 'static analysis: decision-region walk + data-dependence and path rules on MIR',
     'assumptions': COMMON_ASSUMPTIONS,
 }
+
+PROPS['C10'] = {
+    'modules': ['c10'],
+    'level': 'other',
+    'quick_configs': ['default'],
+    'thorough_configs': ALL,
+    'controls': [],
+    'floors': {'default': {'R10.1': 20, 'R10.2': 1, 'R10.3': 1, 'R10.4.hint': 1}},
+    'rule_text': 'obligations: one per monomorphic instance of a FAT writer (stream type must be the mirrored DiskSlice), '
+                 'the two arms of the slice geometry, the two flag decoders, the replicated-write loop, the two '
+                 'read-modify-write sites, format_fat and the allocator\'s hint clamp',
+    'explanation': 'R10.1: every instance of write_fat / Fat*::set* in the mono call graph runs on a DiskSlice. R10.2: '
+                   'arm-restricted dependence analysis of fat_slice: with mirroring the slice starts right after the '
+                   'reserved sectors and has bpb.fats copies; without, it starts at reserved + active_fat * '
+                   'sectors_per_fat and has exactly one; mirroring_enabled/active_fat decode bit 7 / bits 0-3 and the '
+                   'active number is 0 under mirroring. R10.3: in DiskSlice::write the device write is in a loop bounded by '
+                   'self.mirrors, each iteration seeks to an offset that depends on the slice size and on the loop counter '
+                   'or a loop-carried value, and the cursor moves once after the loop. R10.4: FAT32 set merges the old '
+                   'reserved nibble, FAT12 set_raw keeps the neighbour nibble, format_fat writes the media byte and marks '
+                   'padding entries, the next-free hint is used only when strictly below total_clusters + 2. Byte '
+                   'identity of the copies over histories is not decided.',
+    'claim': 'Structural necessary conditions of mirroring and reserved-bit preservation on all paths; byte identity over '
+             'histories is not decided.',
+    'level_note': 'geometry is checked by dependence (which quantities each slice parameter is computed from), not by '
+                  'evaluating the arithmetic',
+    'technique': 'static analysis: arm-restricted data dependence + loop-structure rules on MIR, mono instance typing',
+    'assumptions': COMMON_ASSUMPTIONS,
+}
+
+PROPS['C03'] = {
+    'modules': ['c03', 'c05'],
+    'level': 'other',
+    'quick_configs': ['default'],
+    'thorough_configs': ALL,
+    'controls': [],
+    'floors': {'default': {'R3.1': 1, 'R3.2': 1, 'R3.3': 1, 'R3.7': 1, 'R3.8': 1}},
+    'rule_text': 'obligations: zero-fill of directory clusters (length, guard, position, the two callers\' arguments), '
+                 'dot entries, release-on-failure of the unpublished allocation, `..` rewrite on move, first-cluster reset '
+                 'at offset 0, the contiguous-run counter of the free-slot search, the truncate order, plus the reclaim '
+                 'rules shared with C05',
+    'explanation': 'Structural necessary conditions of the raw-image invariants, each decided on every path of the MIR: a '
+                   'new directory cluster is zeroed over cluster_size bytes at offset_from_cluster(new) under the `zero` '
+                   'argument, which create_dir passes as true and File::write as is_dir(); `.`/`..` provenance; between '
+                   'the allocation and the write that publishes it every error exit releases the cluster (found the '
+                   'create_dir leak); a moved directory gets its `..` rewritten (violated: known finding); an iteration of '
+                   'the free-slot search either extends the run or resets the counter (a run never spans used slots); '
+                   'truncate marks end-of-chain before freeing the tail. Cross-links, cycles, chain length vs size and '
+                   'long-name run well-formedness over histories are not decided.',
+    'claim': 'Structural necessary conditions only (ordering, pairing, provenance); global FAT/directory consistency over '
+             'histories is not decided.',
+    'level_note': 'one known finding (R3.5) is listed in known_findings.txt',
+    'technique': 'static analysis: acquire/release typestate, dominance and dependence rules on MIR',
+    'assumptions': COMMON_ASSUMPTIONS,
+}
